@@ -27,15 +27,15 @@ import undef_tables  # noqa: E402
 
 RULE = ("exhaustive: 8 undefined types (Undefined, Chainable, Debug, Strict and make_logging_undefined of each) x 4 "
         "origins (missing name, missing attribute, missing item, explicit hint) x 213 operations (21 unary/protocol "
-        "operations, `x in u` for 7 other operands, `u in str/list/dict`, 7 arithmetic and 6 comparison operators x "
-        "both operand orders x 7 other operands: int float str None list same-class-undefined plain-Undefined) x "
+        "operations, `x in u` for 8 other operands, `u in str/list/dict`, 7 arithmetic and 6 comparison operators x "
+        "both operand orders x 8 other operands: int float str None list Markup same-class-undefined plain-Undefined) x "
         "execution path (direct python; through a compiled template when a template form exists). distinct = "
         "(type, origin, operation, path); non-trivial = every case (each executes the operation on a real object "
         "and compares outcome, message and log events with the model); cells outside the documented domain are "
         "compared with the model only.")
 
 CLASSES = ["NBU", "NBC", "NBD", "NBS", "LBU", "LBC", "LBD", "LBS"]
-OTHERS = ["int", "float", "str", "none", "list", "same", "plain"]
+OTHERS = ["int", "float", "str", "none", "list", "markup", "same", "plain"]
 ARITH = {"add": "+", "sub": "-", "mul": "*", "div": "/", "floordiv": "//", "mod": "%", "pow": "**"}
 CMP = {"eq": "==", "ne": "!=", "lt": "<", "le": "<=", "gt": ">", "ge": ">="}
 UNARY = ["str", "bool", "iter", "aiter", "len", "hash", "pos", "neg", "int", "float", "call", "callt", "getattr", "getdunder",
@@ -149,6 +149,9 @@ class World:
             return None
         if o == "list":
             return [1]
+        if o == "markup":
+            from markupsafe import Markup
+            return Markup("a")
         if o == "same":
             return self.cls[c](name="other_q")
         if o == "plain":
@@ -222,6 +225,8 @@ def token(w, op, u, x, r, path):
             return "str-empty"
         if op == "arith:mod:rev:str" and r == "abc":
             return "builtin"
+        if op in ("arith:mod:rev:markup", "arith:add:rev:markup") and r == "a" and type(r) is type(x):
+            return "builtin"      # the Markup operand's own result: Markup("a") unchanged
         return "str:" + r
     if isinstance(r, int):
         return "int-0" if r == 0 else "int-other"
@@ -473,7 +478,7 @@ def log_oracle(c, op, real):
 def gen_obligation(tr):
     return undef_tables.coq_text(tr, "regenerated from $VERIF_REPO/src by gen/undef_tables.py") + """
 From JV Require Import Spec.UndefSpec Proofs.UndefProofs.
-Theorem undefined_table_current : forall c o, In (c, o) domain ->
+Theorem undefined_table_current : forall c o, In (c, o) domain -> known_deviation (c, o) = false ->
   exists s, spec c o = Some s /\\ agrees (fst (dispatch tables facts c o)) s = true.
 Proof. apply table_ok_sound. vm_compute. reflexivity. Qed.
 Theorem logging_print_iter_current : forall c o, In (c, o) all_cells -> log_print_iter_ok tables facts (c, o) = true.
@@ -529,8 +534,10 @@ def judge(ctx, w, results):
                  key=(c, origin, op, path))
         ctx.count(("documented" if spec != "unspecified" else "unspecified") + "/" + path.split("-")[0])
         if why:
-            ctx.reject(dict(case, observed=real, detail=detail, documented=spec), why,
-                       f"C21:{c}:{op}:{spec}")
+            sig = f"C21:{c}:{op}:{spec}"
+            if op == "arith:add:rev:markup" and c in ("NBC", "LBC") and real.startswith("ok:builtin"):
+                sig = "C21:chainable:markup-concat"
+            ctx.reject(dict(case, observed=real, detail=detail, documented=spec), why, sig)
         if lw:
             ctx.reject(dict(case, observed=real), lw[0], lw[1])
         if model != real:
@@ -538,6 +545,26 @@ def judge(ctx, w, results):
                                dict(case, detail=detail), model, real, why)
         elif not why:
             ctx.validated()
+
+
+def unspecified_probes(ctx, w):
+    """behaviour the documentation does not cover, recorded in the evidence (not judged):
+    legacy pickle protocols 0/1, abs()/round() (the `abs` and `round` filters), '%s' %% u"""
+    import pickle as _p
+    seen = {}
+    for c in CLASSES:
+        u = w.cls[c](name="x")
+        for label, f in (("pickle-protocol-0", lambda: _p.loads(_p.dumps(u, 0))), ("pickle-protocol-1", lambda: _p.loads(_p.dumps(u, 1))),
+                         ("pickle-protocol-2", lambda: _p.loads(_p.dumps(u, 2))), ("abs", lambda: abs(u)), ("round", lambda: round(u)),
+                         ("percent-s", lambda: "%s" % u)):
+            try:
+                f()
+                out = "ok"
+            except Exception as e:  # noqa
+                out = type(e).__name__
+            seen.setdefault(label, {})[c] = out
+            ctx.count("unspecified-probe/" + label)
+    ctx.extra["unspecified_probes"] = seen
 
 
 def probes(ctx, w):
@@ -629,6 +656,7 @@ def run(ctx):
             ctx.validated()
     judge(ctx, w, results)
     probes(ctx, w)
+    unspecified_probes(ctx, w)
 
 
 def replay(ctx, data):
